@@ -435,6 +435,7 @@ func c05MergeUses(c *core.Ctx) {
 	// the tokens-changed flag is set in the newer-wins branch under !tokensEqual(stored, incoming)
 	nFlagSets := 0
 	okSets := true
+	usesStdEqual := false
 	fn.InspectShallow(func(n ast.Node) bool {
 		if as, ok := n.(*ast.AssignStmt); ok && len(as.Lhs) == 1 && flag != nil && fn.ObjOf(as.Lhs[0]) == flag && fn.Canon(as.Rhs[0]) == "true" {
 			nFlagSets++
@@ -446,18 +447,36 @@ func c05MergeUses(c *core.Ctx) {
 				return true
 			})
 			roles := lwwRoles("Ingesters")
-			if ifs == nil || roles.Apply(fn.Canon(ifs.Cond)) != "!tokensEqual(t.Tokens, o.Tokens)" {
+			cc := ""
+			if ifs != nil {
+				cc = roles.Apply(fn.Canon(ifs.Cond))
+			}
+			// the comparison may be the package's own tokensEqual or the standard library's slices.Equal (either operand order)
+			switch cc {
+			case "!tokensEqual(t.Tokens, o.Tokens)", "!tokensEqual(o.Tokens, t.Tokens)":
+			case "!slices.Equal(t.Tokens, o.Tokens)", "!slices.Equal(o.Tokens, t.Tokens)":
+				usesStdEqual = true
+			default:
 				okSets = false
 			}
 		}
 		return true
 	})
 	c.Check(nFlagSets == 1 && okSets, "R4", "flag=tokensChanged", fn.Pos(), "the tokens-changed flag is set exactly under !tokensEqual(stored.Tokens, incoming.Tokens)", 1)
+	c05StdEqual = usesStdEqual
 }
+
+// c05StdEqual: the merge compares token lists with slices.Equal (standard library: lengths, then elements)
+// instead of the package's own tokensEqual.
+var c05StdEqual bool
 
 func c05TokensEqual(c *core.Ctx) {
 	pkg := c.Prog.Pkg("ring")
 	fn := an.FindFunc(pkg, "tokensEqual")
+	if fn == nil && c05StdEqual {
+		c.HoldTrivial("R5", "func=tokensEqual", pkg.Syntax[0].Pos(), "token lists are compared with the standard library's slices.Equal (lengths first, then elements); the package has no comparison of its own")
+		return
+	}
 	if fn == nil {
 		c.Miss("R5", "func=tokensEqual", "not found")
 		return
